@@ -186,13 +186,16 @@ theorem call_clear_comm (v : V) (c : Call) (id : Nat) : (v.call c).clear id = (v
 
 /-- a failed Delete is queued (again): the item for `o.id` is replaced -/
 theorem XL.call_add_del {v : V} {rs : List Res} (h : XL v rs) (o : RObj) (rev : Nat) (hp : 0 < rev) (hle : rev ≤ v.tableRev)
-    (hdd : ∀ d ∈ v.dels, d.1.id = o.id → d.2 ≤ v.itDelRev → d = (o, rev)) :
+    (hdd : ∀ d ∈ v.dels, d.1.id = o.id → d.2 ≤ v.itDelRev → d = (o, rev))
+    (hpo : prevO v.items o.id rev = rev) :
     XL ((v.call ⟨"D", o.id, o.data, false⟩).add o rev rev true) rs := by
   refine ⟨fun it hit => ?_, h.tab.congr rfl rfl rfl, h.prog.mono rfl rfl rfl (Nat.le_refl _) (Nat.le_refl _) rfl, h.res⟩
   rcases (mem_add_items ..).1 hit with ⟨hm, hne⟩ | rfl
   · simp only [call_items] at hm
     exact ((h.items it hm).call_other _ (by simp only; omega)).mono (Nat.le_refl _) rfl (Nat.le_refl _) rfl (fun _ _ ho _ _ => ho) (fun _ _ hd _ hle => ⟨hd, hle⟩)
-  · refine IOK.ofAdd (v := (v.call ⟨"D", o.id, o.data, false⟩).add o rev rev true) o rev rev true _ hp (Nat.le_refl _) hle (fun _ => rfl) (fun e => by cases e) ?_ (fun e => by cases e) (fun _ => hdd)
+  · have hpo' : prevO (v.call ⟨"D", o.id, o.data, false⟩).items o.id rev = rev := hpo
+    rw [hpo']
+    refine IOK.ofAdd (v := (v.call ⟨"D", o.id, o.data, false⟩).add o rev rev true) o rev rev true _ hp (Nat.le_refl _) hle (fun _ => rfl) (fun e => by cases e) ?_ (fun e => by cases e) (fun _ => hdd)
     simp only [add_log, call_log, if_true]
     exact lastCall_append_self _ ⟨"D", o.id, o.data, false⟩
 
@@ -233,7 +236,7 @@ theorem XL.delStep {v : V} {rs : List Res} (h : XL v rs) (o : RObj) (rev : Nat) 
   cases f with
   | true =>
     rw [single_dt]
-    exact h2.call_add_del o rev (h.tab.dpos _ hd) hle (fun d hdm hid _ => hdp d hdm hid)
+    exact h2.call_add_del o rev (h.tab.dpos _ hd) hle (fun d hdm hid _ => hdp d hdm hid) (prevO_of_not_mem hno rev)
   | false =>
     rw [single_df, call_clear_comm]
     have : ({ v.clear o.id with itDelRev := rev } : V).clear o.id = { v.clear o.id with itDelRev := rev } := by
@@ -260,7 +263,9 @@ theorem XL.retryStep {v : V} {rs : List Res} (h : XL v rs) (hpw : v.items.Pairwi
     cases f with
     | true =>
       rw [single_dt]
-      exact (hp.call_add_del it0.obj it0.rev hrp hI0.rle (fun d hdm hid hle => hI0.deld hdel d hdm (by omega) hle)).setRes (hres _ _)
+      refine (hp.call_add_del it0.obj it0.rev hrp hI0.rle (fun d hdm hid hle => hI0.deld hdel d hdm (by omega) hle) ?_).setRes (hres _ _)
+      simp only [pop_items]
+      rw [prevO_pop, hobj, prevO_of_mem hpw hit0, hI0.delrev hdel]
     | false =>
       rw [single_df, call_clear_comm]
       exact (hp.call_clear ⟨"D", it0.obj.id, it0.obj.data, true⟩).setRes (hres _ _)
@@ -320,8 +325,15 @@ theorem XL.commitStep {v : V} {res : Res} {rs : List Res} (h : XL v (res :: rs))
       rcases (mem_setObj_v ..).1 ho with ⟨ho, _⟩ | rfl
       · exact ho
       · have := hI.rle; simp only at hrev; omega
-    · refine IOK.ofAdd (v := (v.setObj { res.1 with kind := .error, sid := sid }).add res.2.1 (v.tableRev + 1) res.2.2.1 false)
-        res.2.1 (v.tableRev + 1) res.2.2.1 false _ hpos (by omega) (by simp) (fun e => by cases e) (fun _ => by omega) ?_ ?_ (fun e => by cases e)
+    · have hq : 0 < prevO (v.setObj { res.1 with kind := .error, sid := sid }).items res.2.1.id res.2.2.1 ∧
+          prevO (v.setObj { res.1 with kind := .error, sid := sid }).items res.2.1.id res.2.2.1 ≤ v.tableRev := by
+        rcases prevO_cases (v.setObj { res.1 with kind := .error, sid := sid }).items res.2.1.id res.2.2.1 with e | ⟨i, hi, _, e⟩
+        · rw [e]; exact ⟨hpos, hrl⟩
+        · rw [e]
+          have hi' := h.items i hi
+          exact ⟨hi'.opos, Nat.le_trans hi'.ole hi'.rle⟩
+      refine IOK.ofAdd (v := (v.setObj { res.1 with kind := .error, sid := sid }).add res.2.1 (v.tableRev + 1) res.2.2.1 false)
+        res.2.1 (v.tableRev + 1) _ false _ hq.1 (by omega) (by simp) (fun e => by cases e) (fun _ => by omega) ?_ ?_ (fun e => by cases e)
       · simp only [add_log, setObjV_log, Bool.false_eq_true, if_false]
         rw [hsame]; exact hlast hf
       · intro _ x hx hxid _
